@@ -346,6 +346,35 @@ def cand_ends(o):
     return None
 
 
+def seg_geometry(o):
+    """C01's geometric invariant, checked on the implementation's own segment list (printed by the harness from the private
+    headers, `segs=<|composition input|>:start-end-length-status-index-tags|…`): the first segment starts at 0, each starts
+    where the previous one ends, start <= end <= |composition input| <= |input|.  This is what makes every
+    substr(seg.start, seg.end - seg.start) of the composition legal; it is proved for the model under NoPrevMatch and
+    monitored here for every schema (in particular auto_select without a code-length bound, and the stock components)."""
+    sg = o.get("segs")
+    if "nocontext" in o or not sg or ":" not in sg:
+        return None
+    cin, body = sg.split(":", 1)
+    try:
+        cin = int(cin)
+        segs = [] if body == "-" else [[int(x) for x in g.split("-")[:2]] for g in body.split("|")]
+    except ValueError:
+        return "segs-unparsable"
+    if cin > len(unhex(o.get("input"))):
+        return "composition-input-longer-than-input"
+    pos = 0
+    for k, (a, b) in enumerate(segs):
+        if a != pos:
+            return "segments-not-contiguous" if k else "first-segment-not-at-0"
+        if b < a:
+            return "segment-end-before-start"
+        if b > cin:
+            return "segment-beyond-composition-input"
+        pos = b
+    return None
+
+
 def ddmin(ops, fails, budget=60):
     """shrink an op list while fails(ops) stays true"""
     n = 2
@@ -402,7 +431,7 @@ def eval_history(c, exe, ws, rows, sid, ops, monitor, tag="h"):
     return res
 
 
-def session_check(c, pid, monitor, histories, rows_for, exe, ws, what_prop, report_diffs=True):
+def session_check(c, pid, monitor, histories, rows_for, exe, ws, what_prop, report_diffs=True, monitor_no_input=False):
     """histories: list of (sid, ops, table_id); rows_for[table_id] = rows.
     Runs them in batches per table, compares impl/model, monitors, shrinks, reports.  Returns stats."""
     stats = {"histories": 0, "ops": 0, "diffs": 0, "violations": 0, "crashes": 0, "kinds": {}, "nontrivial": set(),
@@ -463,7 +492,8 @@ def session_check(c, pid, monitor, histories, rows_for, exe, ws, what_prop, repo
                     c.report("%s:%s:%s" % (pid, op_kind(small[-1]), clause),
                              "%s violated (%s) after %d calls on %s" % (what_prop, clause, len(small), sid),
                              {"kind": "impl-violation", "schema": sid, "table": rows, "ops": small,
-                              "observation": r["first_viol"][3] if r["first_viol"] else None, "clause": clause})
+                              "observation": r["first_viol"][3] if r["first_viol"] else None, "clause": clause},
+                             no_input=monitor_no_input)
                 else:
                     stats["diffs"] += 1
                     small = ddmin(ops, lambda t: eval_history(c, exe, ws, rows, sid, t, monitor, "sh")["first_diff"] is not None)
@@ -556,7 +586,7 @@ def eval_impl(c, exe, ws, sid, ops, monitor, tag="st"):
     return {"rc": rc, "first_viol": first, "log": out[-2500:] if rc else "", "n": len(impl)}
 
 
-def stock_monitor_check(c, pid, monitor, histories, exe, ws, what_prop, sid="vs_full"):
+def stock_monitor_check(c, pid, monitor, histories, exe, ws, what_prop, sid="vs_full", monitor_no_input=False):
     """histories on the stock-component schema, implementation only: every observation goes through `monitor`."""
     st = {"stock_histories": 0, "stock_ops": 0, "stock_composing": 0, "stock_menus": 0, "stock_violations": 0, "stock_crashes": 0,
           "stock_op_kinds": {}}
@@ -604,7 +634,8 @@ def stock_monitor_check(c, pid, monitor, histories, exe, ws, what_prop, sid="vs_
             c.report("%s:stock:%s:%s" % (pid, op_kind(small[-1]), clause),
                      "%s violated (%s) after %d calls on the stock-component schema" % (what_prop, clause, len(small)),
                      {"kind": "impl-violation", "schema": sid, "workspace": "stock-like (c01_common.make_full_workspace)", "table": [],
-                      "ops": small, "observation": r["first_viol"][3] if r["first_viol"] else None, "clause": clause})
+                      "ops": small, "observation": r["first_viol"][3] if r["first_viol"] else None, "clause": clause},
+                     no_input=monitor_no_input)
     return st
 
 
